@@ -65,10 +65,30 @@ class StubConnection:
             self.helper.close()
 
 
-def make_plain():
+def sim_loop():
+    """A virtual-clock loop for layer-F cases in which time passes between chunks (caller disposes it)."""
+    global _LOOP
+    from .simloop import SimLoop
+
+    lp = SimLoop()
+    asyncio.set_event_loop(lp)
+    _LOOP = None  # the next plain case mints a fresh private loop
+    return lp
+
+
+def advance(lp, seconds: float) -> None:
+    """Let `seconds` of virtual time pass: every ready callback and every timer due until then runs."""
+    lp.horizon = lp.time() + seconds
+    lp.sim_after(seconds, lambda: None)
+    lp.run_until_quiescent()
+    lp.horizon = None
+
+
+def make_plain(sim=None):
     from aioesphomeapi._frame_helper.plain_text import APIPlaintextFrameHelper
 
-    loop()
+    if sim is None:
+        loop()
     conn = StubConnection()
     h = APIPlaintextFrameHelper(connection=conn, client_info="verif", log_name="verif")
     conn.helper = h
@@ -77,13 +97,14 @@ def make_plain():
     return h, conn, tr
 
 
-def make_noise(psk_b64: str, expected_name, eph: int = 0):
+def make_noise(psk_b64: str, expected_name, eph: int = 0, sim=None):
     from aioesphomeapi._frame_helper.noise import APINoiseFrameHelper
 
     from . import noise_ref
 
     noise_ref.reset_ephemerals(eph)
-    loop()
+    if sim is None:
+        loop()
     conn = StubConnection()
     h = APINoiseFrameHelper(
         connection=conn, noise_psk=psk_b64, expected_name=expected_name, client_info="verif", log_name="verif"
